@@ -32,7 +32,7 @@ RULE = ("histories of raw SSDP datagrams (search responses, ssdp:alive/update/by
 EXHAUSTIVE = {"quick": False, "thorough": False}
 ASSUMPTIONS = [
     "header names and values are ASCII (str.lower / regex classes on non-ASCII are outside the model)",
-    "timestamps are integers (microseconds); the generator keeps max-age <= 1800 s and times within a few hours of 2020-01-01, so the saturating sums of extract_uncache_after / extract_valid_to (timedelta.max / datetime.max, reached only for max-age >~ 10^11 s) are never taken; saturation itself is C02's concern and is not in the model",
+    "timestamps are integers (microseconds) on the harness' axis (epoch 2020-01-01), all within [datetime.min, datetime.max]; the saturating sums of extract_uncache_after / extract_valid_to are modelled (Cfg.tMax, tdMaxUs, tdLimitSec, intMaxDigits are CPython constants, not extracted from the library)",
     "_udn is what decode_ssdp_packet derives from the USN (or a literal _udn header when there is no uuid USN)",
     "URLs follow scheme://[user@]host[:port]/path with host a dotted quad, a name or a bracketed IPv6 literal",
 ]
